@@ -12,6 +12,9 @@ R01.4 coordinate-space typing inside the view classes: parent indices only index
 Added in build round 2 (see DESIGN.md section 3, round-2 table):
 R01.5 the read / iterate / measure methods that exist in both sequence implementations are equal after normalisation (same reasoning and stated limit as ...
 R01.6 a view built over a realised string of the receiver starts a new, forward coordinate system: it may be given the receiver's own parent coordinates ...
+
+Added later in build rounds 2-3 (see DESIGN.md section 3, round-2/3 table):
+R01.7 the value accessors of a view (str_value, bytes_value, array_value) realise the same slice: in SeqDataView they are equal after normalisation up to ...
 """
 
 from __future__ import annotations
